@@ -36,43 +36,67 @@ def cases(draw):
     if n >= 2 and draw(st.integers(0, 2)) == 0:
         i = draw(st.integers(0, n - 1))
         pairs[i]["a" if draw(st.booleans()) else "b"] = draw(st.sampled_from((0, R)))   # identity at a drawn position
-    return {"pairs": pairs, "dirty": draw(st.booleans()), "rounds": draw(st.sampled_from((1, 1, 2))), "cpp": draw(st.booleans())}
+    c = {"pairs": pairs, "dirty": draw(st.booleans()), "rounds": draw(st.sampled_from((1, 1, 2))), "cpp": draw(st.booleans())}
+    if c["rounds"] == 2 and n >= 1 and draw(st.booleans()):
+        # the second call runs on other points written over the same storage, the caller's pair records stay as they are:
+        # identities become points and points become identities at drawn positions
+        second = []
+        for p in pairs:
+            q = draw(pair())
+            q["prep"] = p["prep"]
+            was_ident = p["a"] % R == 0 or p["b"] % R == 0
+            how = draw(st.integers(0, 3))
+            if was_ident and how <= 1:
+                q["a"], q["b"] = (q["a"] % R) or 1, (q["b"] % R) or 1
+            elif not was_ident and how == 0:
+                q["a" if draw(st.booleans()) else "b"] = draw(st.sampled_from((0, R)))
+            elif how == 3:
+                q["a"], q["b"] = p["a"], p["b"]
+            second.append(q)
+        c["second"] = second
+    return c
 
 
 def check(ctx, lib, c):
+    import ctypes
     pairs = c["pairs"]
     aff = [p for p in pairs if not p["prep"]]
     prep = [p for p in pairs if p["prep"]]
     a1sz, a2sz, psz = lib.sizeof("G1Affine"), lib.sizeof("G2Affine"), lib.sizeof("G2Prepared")
-    g1s = b""
-    g2s = b""
-    preps = b""
-    for p in aff + prep:
-        g1s += c05.aff_b(lib, 1, C.gen_mul(1, p["a"]), tuple(p["j1"]))
-    for p in aff:
-        g2s += c05.aff_b(lib, 2, C.gen_mul(2, p["b"]), tuple(tuple(x) for x in p["j2"]))
     f_prep = getattr(lib.dll, API + "g2prepared_prepare")
     f_prep.restype = None
-    cache = {}
-    big = conv  # noqa
-    import ctypes
-    pbuf = ctypes.create_string_buffer(max(1, len(prep)) * psz + 64)
-    pbase = (ctypes.addressof(pbuf) + 63) & ~63
-    for i, p in enumerate(prep):
-        q = c05.aff_b(lib, 2, C.gen_mul(2, p["b"]), tuple(tuple(x) for x in p["j2"]))
-        lib.B.write(q)
-        f_prep(ctypes.c_void_p(pbase + i * psz), lib.B.ptr)
-    g1buf = ctypes.create_string_buffer(len(g1s) + 128)
-    g1base = (ctypes.addressof(g1buf) + 63) & ~63
-    ctypes.memmove(g1base, g1s, len(g1s))
-    g2buf = ctypes.create_string_buffer(len(g2s) + 128)
-    g2base = (ctypes.addressof(g2buf) + 63) & ~63
-    ctypes.memmove(g2base, g2s, len(g2s))
+
+    def images(ps):
+        """(G1Affine images affine-first, G2Affine images of the affine pairs, G2Prepared images) in aligned storage."""
+        af = [p for p in ps if not p["prep"]]
+        pr = [p for p in ps if p["prep"]]
+        g1s = b"".join(c05.aff_b(lib, 1, C.gen_mul(1, p["a"]), tuple(p["j1"])) for p in af + pr)
+        g2s = b"".join(c05.aff_b(lib, 2, C.gen_mul(2, p["b"]), tuple(tuple(x) for x in p["j2"])) for p in af)
+        pbuf = ctypes.create_string_buffer(max(1, len(pr)) * psz + 64)
+        pbase = (ctypes.addressof(pbuf) + 63) & ~63
+        for i, p in enumerate(pr):
+            lib.B.write(c05.aff_b(lib, 2, C.gen_mul(2, p["b"]), tuple(tuple(x) for x in p["j2"])))
+            f_prep(ctypes.c_void_p(pbase + i * psz), lib.B.ptr)
+        g1buf = ctypes.create_string_buffer(len(g1s) + 128)
+        g1base = (ctypes.addressof(g1buf) + 63) & ~63
+        ctypes.memmove(g1base, g1s, len(g1s))
+        g2buf = ctypes.create_string_buffer(len(g2s) + 128)
+        g2base = (ctypes.addressof(g2buf) + 63) & ~63
+        ctypes.memmove(g2base, g2s, len(g2s))
+        return (g1buf, g2buf, pbuf), g1base, g2base, pbase
+    keep, g1base, g2base, pbase = images(pairs)
+    second = c.get("second")
     rounds = c["rounds"]
     lib.O.fill(0xCD, 576 * rounds)
     lib.dll.vf_set_use_cpp(1 if c["cpp"] else 0)
-    f = lib.fn("vf_pairing_sum", None, [ctypes.c_void_p, ctypes.c_size_t, ctypes.c_void_p, ctypes.c_void_p, ctypes.c_size_t, ctypes.c_void_p, ctypes.c_int, ctypes.c_int])
-    f(lib.O.ptr, len(aff), ctypes.c_void_p(g1base), ctypes.c_void_p(g2base), len(prep), ctypes.c_void_p(pbase), 1 if c["dirty"] else 0, rounds)
+    V = ctypes.c_void_p
+    if second:
+        keep2, g1b2, g2b2, pb2 = images(second)
+        f = lib.fn("vf_pairing_sum2", ctypes.c_long, [V, ctypes.c_size_t, V, V, ctypes.c_size_t, V, ctypes.c_int, ctypes.c_int, V, V, V])
+        rv = f(lib.O.ptr, len(aff), V(g1base), V(g2base), len(prep), V(pbase), 1 if c["dirty"] else 0, rounds, V(g1b2), V(g2b2), V(pb2))
+    else:
+        f = lib.fn("vf_pairing_sum", ctypes.c_long, [V, ctypes.c_size_t, V, V, ctypes.c_size_t, V, ctypes.c_int, ctypes.c_int])
+        rv = f(lib.O.ptr, len(aff), V(g1base), V(g2base), len(prep), V(pbase), 1 if c["dirty"] else 0, rounds)
     lib.dll.vf_set_use_cpp(0)
     outs = [lib.O.read(576, 576 * i) for i in range(rounds)]
     e = sum(p["a"] * p["b"] for p in pairs) % R
@@ -86,11 +110,18 @@ def check(ctx, lib, c):
     got = F.tower_to_flat(conv.b_fq12(outs[0]))
     expect(got == exp, sig + ("/empty" if not pairs else "/identity-inside" if ident else "/value"),
            lambda: "pairs=%r (affine first: %d affine, %d prepared)" % ([(hex(p["a"]), hex(p["b"]), p["prep"]) for p in pairs], len(aff), len(prep)))
-    if rounds > 1:
+    expect(rv == 0, sig + "/records-modified", lambda: "the product changed the %s pointers of the caller's pair records" % ("g1/g2 of affine" if rv & 1 else "g1/g2 of prepared"))
+    if rounds > 1 and not second:
         expect(outs[1] == outs[0], sig + "/reused-arrays", "second call on the same pair arrays differs from the first")
+    if second:
+        e2 = sum(p["a"] * p["b"] for p in second) % R
+        ctx.event("reused-records-other-points")
+        expect(F.tower_to_flat(conv.b_fq12(outs[1])) == PR.gt_pow_gen(e2), sig + "/reused-records-other-points",
+               lambda: "second product on the same pair records after the points were changed: first %r then %r" % ([(hex(p["a"]), hex(p["b"]), p["prep"]) for p in pairs], [(hex(p["a"]), hex(p["b"]), p["prep"]) for p in second]))
     # single prepared pairing equals the plain one (through the exact-value oracle)
     if prep:
-        p = prep[0]
+        # (the prepared storage holds the second set of points when the records were re-used with other points)
+        p = [q for q in second if q["prep"]][0] if second else prep[0]
         lib.A.write(c05.aff_b(lib, 1, C.gen_mul(1, p["a"]), tuple(p["j1"])))
         g = getattr(lib.dll, API + "prepared_pairing")
         g.restype = None
